@@ -24,6 +24,7 @@ func runC39(w *World, r *Report) {
 	r.Rule("R-C39-2", "request-derived sizes: every make() length and slice bound computed from the range start/end parameters is unreachable once the edges establishing start < file size are removed (or lies on the in-memory path guarded by the constant smartRangeLoading)", 2)
 	c39CacheKey(w, r)
 	c39SizeWithCachedData(w, r)
+	c39LinksResolved(w, r)
 	r.Rule("R-C39-3", "containment: every os file call in package assets takes its path from normalizeAssetPath; normalizeAssetPath returns the joined path only behind the HasPrefix(root+separator) true edge", 4)
 
 	p := w.pkg("internal/server/assets")
